@@ -328,6 +328,61 @@ def returnsOnAllPaths (m : Module) : List String :=
   (m.functions.toList ++ m.entries.toList.map (·.2.2)).filterMap (fun f =>
     if f.result.isSome && !blockReturns f.body then some s!"fn {f.name}: has a result type but a path that does not return a value" else none)
 
+/-! ### global expressions: constructors are built from components of the constructed type's own component types,
+and a module-scope variable's initializer has the variable's type -/
+
+/-- Shape of global expression `e` from the shapes of the earlier global expressions. -/
+def inferGlobal (m : Module) (prev : Array Sh) (e : Expr) : Sh :=
+  match e with
+  | .compose t _ => shOfTy m.types t
+  | .zero t => shOfTy m.types t
+  | .lit v => litSh v
+  | .const c => (match m.consts[c]? with | some (t, _) => shOfTy m.types t | none => .unknown)
+  | .splat n h => (match prev.getD h .unknown with | .scalar k w => .vector n k w | _ => .unknown)
+  | .unary _ h => prev.getD h .unknown
+  | _ => .unknown
+
+/-- What the components of a constructor of type `t` must be; `none` = this rule does not decide. -/
+def componentErrs (m : Module) (prev : Array Sh) (i t : Nat) (hs : List Nat) : List String :=
+  let got (h : Nat) : Sh := prev.getD h .unknown
+  let bad (h : Nat) (want : Sh) : Option String :=
+    if want != .unknown && got h != .unknown && want != got h then
+      some s!"global expression {i}: component {h} of the constructor of type#{t} has type {showSh (got h)} but {showSh want} is required"
+    else none
+  match m.types[t]? with
+  | some (.vector _ k w) =>
+    hs.filterMap (fun h => match got h with
+      | .scalar k' w' => if k' == k && w' == w then none else bad h (.scalar k w)
+      | .vector n' k' w' => if k' == k && w' == w then none else bad h (.vector n' k w)
+      | .unknown => none
+      | _ => bad h (.scalar k w))
+  | some (.matrix _ r k w) =>
+    hs.filterMap (fun h => match got h with
+      | .scalar k' w' => if k' == k && w' == w then none else bad h (.scalar k w)
+      | _ => bad h (.vector r k w))
+  | some (.array b _ _) => hs.filterMap (fun h => bad h (shOfTy m.types b))
+  | some (.struct _ ms) => (hs.zip ms).filterMap (fun p => bad p.1 (shOfTy m.types p.2.1))
+  | some (.scalar k w) => [s!"global expression {i}: constructor of the scalar type {showSh (.scalar k w)}"]
+  | _ => []
+
+def checkGlobalExprTypes (m : Module) : List String :=
+  let step (acc : Array Sh × List String) (ie : Nat × Expr) : Array Sh × List String :=
+    let (prev, errs) := acc
+    let errs := match ie.2 with
+      | .compose t hs => errs ++ componentErrs m prev ie.1 t hs
+      | _ => errs
+    (prev.push (inferGlobal m prev ie.2), errs)
+  let (shapes, errs) := ((List.range m.gexprs.size).zip m.gexprs.toList).foldl step (#[], [])
+  errs ++ m.globals.toList.filterMap (fun g =>
+    match g.init with
+    | some (true, h) =>
+      let got := shapes.getD h .unknown
+      let want := shOfTy m.types g.ty
+      if got != .unknown && want != .unknown && got != want then
+        some s!"global {g.name}: initializer has type {showSh got} but the variable has type {showSh want}"
+      else none
+    | _ => none)
+
 /-- `(typed <module> (tynames …) (fntypes (name t…)…))` ↦ all diagnostics. -/
 def validateTyped (x : Sexp) : Option (List String) :=
   match x with
@@ -343,7 +398,7 @@ def validateTyped (x : Sexp) : Option (List String) :=
       match (fns.zip fts).find? (fun p => p.1.name == name) with
       | some (_, .list (_ :: rec_)) => rec_.toArray
       | _ => #[]
-    some (IRValid.validate m ++ abstractSurvivors m recordedOf ++ duplicateTypes m names ++ returnsOnAllPaths m ++ tyErrs)
+    some (IRValid.validate m ++ abstractSurvivors m recordedOf ++ duplicateTypes m names ++ returnsOnAllPaths m ++ tyErrs ++ checkGlobalExprTypes m)
   | _ => none
 
 end Naga.IRTyping
